@@ -775,12 +775,14 @@ impl ParseState<'_> {
         loop {
             // 右括弧⇒跳过，结束
             if env[term_begin..].starts_with_str(right) {
-                right_border = term_begin + right.chars().count();
+                // ! `starts_with_str`在环境先于括弧结束时亦返回`true`：边界不得越过环境末尾
+                right_border = (term_begin + right.chars().count()).min(env.len());
                 break;
             }
             // 分隔符⇒跳过
             if env[term_begin..].starts_with_str(&self.format.compound.separator) {
-                term_begin += self.format.compound.separator.chars().count();
+                // ! 同上：索引不得越过环境末尾
+                term_begin = (term_begin + self.format.compound.separator.chars().count()).min(env.len());
             }
             // 解析一个词项
             let (term, term_len) = self.segment_term(&env[term_begin..])?;
@@ -827,12 +829,14 @@ impl ParseState<'_> {
         loop {
             // 右括弧⇒跳过，结束
             if env[term_begin..].starts_with_str(right) {
-                right_border = term_begin + right.chars().count();
+                // ! `starts_with_str`在环境先于括弧结束时亦返回`true`：边界不得越过环境末尾
+                right_border = (term_begin + right.chars().count()).min(env.len());
                 break;
             }
             // 分隔符⇒跳过
             if env[term_begin..].starts_with_str(&self.format.compound.separator) {
-                term_begin += self.format.compound.separator.chars().count();
+                // ! 同上：索引不得越过环境末尾
+                term_begin = (term_begin + self.format.compound.separator.chars().count()).min(env.len());
             }
             // 解析一个词项
             let (term, term_len) = self.segment_term(&env[term_begin..])?;
@@ -894,7 +898,8 @@ impl ParseState<'_> {
         // 跳过右括弧 //
         let right_bracket_start = predicate_start + relative_len;
         let right_border = match env[right_bracket_start..].starts_with_str(right) {
-            true => right_bracket_start + right.chars().count(),
+            // ! `starts_with_str`在环境先于括弧结束时亦返回`true`：边界不得越过环境末尾
+            true => (right_bracket_start + right.chars().count()).min(env.len()),
             false => return self.err(env, "未匹配到右括弧"),
         };
 
